@@ -324,3 +324,8 @@ func (m *minimiser) minimise(tape []uint32) []uint32 {
 	}
 	return cur
 }
+
+func matchRE(re, s string) bool {
+	ok, _ := regexp.MatchString(re, s)
+	return ok
+}
